@@ -2,7 +2,7 @@
 // documentation and the property statements. It does not parse WXML and shares no code with the SUT.
 // Output format = the snapshot format of rt.mjs (flattened node list).
 import * as X from './expr.mjs'
-import { isStatic, isSingle, staticText, dashToCamel } from './tmodel.mjs'
+import { isStatic, isSingle, staticText, dashToCamel, PROP_COMPONENT_PROPS as PROP_NAMES } from './tmodel.mjs'
 
 export const Y = (x) => (x === null || x === undefined ? '' : String(x))
 
@@ -201,6 +201,24 @@ export class Renderer {
         if (n.slotVals && n.slotVals.length) e2 = env.push(...n.slotVals.map((s) => ({ name: s.as === undefined ? dashToCamel(s.name) : s.as, value: (this.opts.slotValues || {})[dashToCamel(s.name)], kind: 'slotval', slotValueName: dashToCamel(s.name) })))
         const { ch, slot, generics } = this.attrsToChannels(n, e2)
         const el = { k: 'el', tag: n.tag, slot, ch, generics, dsv: childSlotValueNames(n.children), children: this.renderNodes(n.children, e2, file) }
+        if (this.opts.propComponents && n.tag === 'x-a') {
+          // `<x-a>` is a component with any-typed properties: plain and model: attributes whose camel-cased name
+          // is a declared property set it (a valueless attribute is `true`, `undefined` falls back to the default null)
+          el.props = Object.fromEntries(PROP_NAMES.map((p) => [p, null]))
+          for (const a of n.attrs) {
+            if (a.fam === 'style') {
+              // a component that declares a property `style` receives the attribute as that property
+              const v = a.value === null || a.value === undefined ? '' : evalValue(a.value, e2)
+              el.props.style = v === undefined ? null : v
+              continue
+            }
+            if (a.fam !== 'plain' && a.fam !== 'model') continue
+            const camel = dashToCamel(a.name)
+            if (!PROP_NAMES.includes(camel)) continue
+            const v = a.value === null || a.value === undefined ? true : evalValue(a.value, e2)
+            el.props[camel] = v === undefined ? null : v
+          }
+        }
         if (this.opts.onElement) this.opts.onElement(el, n, e2, file)
         out.push(el)
         return
@@ -276,6 +294,6 @@ export function normalizeObserved(nodes) {
     }
     if (n.k === 'slot') return { k: 'slot', name: n.name, slot: n.slot, ch }
     if (n.k === 'virtual') return { k: 'virtual', slot: n.slot, children: normalizeObserved(n.children) }
-    return { k: 'el', tag: n.tag, slot: n.slot, ch, generics: n.generics || {}, dsv: n.dsv, children: normalizeObserved(n.children) }
+    return { k: 'el', tag: n.tag, slot: n.slot, ch, generics: n.generics || {}, dsv: n.dsv, ...(n.props ? { props: n.props } : {}), children: normalizeObserved(n.children) }
   })
 }
